@@ -87,6 +87,11 @@ def check(run, project):
                node=s.node if not isinstance(s.node, ast.Name) else s.node._parent, func=s.ref.qual,
                construct=f"{s.kind}: {s.text}")
     run.cover(failure_sites=len(lg.sites), discharged_by=counts)
+    # the ledger treats `if abort_on_error: raise` as not executed in warn mode: that needs the caller's mode to reach
+    # every callee unchanged
+    from .c07 import check_threading
+    n = check_threading(run, project, rule="Y0")
+    run.require(n >= 30, f"Y0: only {n} threaded call sites found")
     y2(run, lg)
     y4(run, lg)
     y5(run, lg)
@@ -231,10 +236,11 @@ def y4(run, lg):
            node=lb, func="SizeConstraintList.bytes_parsed", construct="charge before all checks")
     # the skip on overrun consumes exactly the rest of the region (needed for 'resume at the declared end')
     sk = [c for c in walk_no_nested(bp) if isinstance(c, ast.Call) and call_name(c) == "consume_bytes"]
-    ok = len(sk) == 1 and norm(sk[0].args[0]) == "self.size_max - self.size_already"
+    from ..fnview import expand_expr
+    ok = len(sk) == 1 and "self.size_max - self.size_already" in expand_expr(cm, bp, sk[0].args[0])
     run.ob("Y4", ok, "an overrun skips exactly to the end the violated size field declares", "overrun skip changed", module=cm,
            node=bp, func="SizeConstraint.bytes_parsed", construct="overrun skip amount")
-    ok = len(pads) == 1 and norm(pads[0].args[0]) == "self.size_max - self.size_already"
+    ok = len(pads) == 1 and "self.size_max - self.size_already" in expand_expr(cm, ad, pads[0].args[0])
     run.ob("Y4", ok, "a shortfall skips exactly to the end the violated size field declares", "padding skip changed", module=cm,
            node=ad, func="SizeConstraint.assert_done", construct="padding skip amount")
     obs = [s for s in walk_no_nested(bp) if isinstance(s, ast.Assign) and norm(s.targets[0]) == "self.is_obsolete"]
